@@ -285,7 +285,7 @@ def shipped(ck):
     """shipped files (tests/data), by magic; only files small enough to mutate many times"""
     out = {}
     root = os.path.join(REPO, "tests", "data")
-    lim = 40000 if ck.quick else 400000
+    lim = 40000 if ck.quick else 150000
     for r, _d, fs in sorted(os.walk(root)):
         for f in sorted(fs):
             p = os.path.join(r, f)
@@ -617,7 +617,7 @@ def tie(ck, drv):
     # ARSCHeader
     g_hdr, g_walk, g_dbg, g_hid = (Guard(ck, w) for w in ("ARSCHeader", "AXMLParser next()", "DebugInfoItem", "HiddenApiClassDataItem"))
     reqs, real = [], []
-    for _ in range(6000 if ck.quick else 60000):
+    for _ in range(6000 if ck.quick else 24000):
         n = rng.choice((0, 3, 7, 8, 9, 12, 16, 24, 40))
         k = rng.randrange(5)
         if k == 0:
@@ -643,7 +643,7 @@ def tie(ck, drv):
     # _do_next event walks
     reqs, real = [], []
     nskip = 0
-    for _ in range(3000 if ck.quick else 40000):
+    for _ in range(3000 if ck.quick else 12000):
         data = gen_chunk_stream(rng)
         r = g_walk(lambda: real_axml_walk(axml, data), {"op": "axml-walk", "hex": data.hex(), "size": len(data)})
         if r is None:
@@ -674,7 +674,7 @@ def tie(ck, drv):
     cm = type("CM", (), {})()
     cm.packer = dex.DalvikPacker(0x12345678)
     reqs, real = [], []
-    for _ in range(4000 if ck.quick else 40000):
+    for _ in range(4000 if ck.quick else 16000):
         n = rng.choice((0, 1, 3, 6, 12, 30))
         k = rng.randrange(3)
         if k == 0:
@@ -704,7 +704,7 @@ def tie(ck, drv):
     ck.compare("debug-info-item", reqs, real, drv.ask(reqs))
     ndbg_ok = sum(1 for r in real if r.startswith("ok"))
     reqs, real = [], []
-    for _ in range(4000 if ck.quick else 40000):
+    for _ in range(4000 if ck.quick else 16000):
         k = rng.randrange(3)
         nw = rng.choice((0, 1, 2, 4, 8))
         if k == 0:
@@ -776,28 +776,43 @@ def run(ck: Check):
         tasks.append((kind, data, cpu_limit(len(data))))
         meta.append({"kind": kind, "base": name, "edits": []})
     rng = random.Random(f"C35-mut/{ck.seed}")
-    total = (5000 if ck.quick else 300000) + npatho
+    # sizes per tier (see manifest/C35.json): quick 5 000 + pathological; thorough 40 000 + pathological.
+    # Thorough estimate: ~45 000 inputs x ~0.1 s CPU (measured 0.05 s/input on the quick bases, larger shipped
+    # files in thorough) / 16 workers ~ 5 min on an idle machine, 10-15 min at load ~15; + tie ~3 min + build/leanchecker.
+    total = (5000 if ck.quick else 40000) + npatho
     if ck.quick and big:
         total += 15000                        # escalated: a pinned function changed
     names = sorted(bases)
     weights = [3 if n.startswith("crafted") or n.startswith("gen") else (1 if bases[n][0] != "apk" else 0.3) for n in names]
-    while len(tasks) < total:
+    nfixed, fixed_tasks = len(tasks), tasks
+    while len(meta) < total:                  # mutants are materialised batch by batch (memory)
         name = rng.choices(names, weights)[0]
         kind, data = bases[name]
         edits = rand_edits(rng, len(data), kind)
-        m = apply_edits(data, edits)
-        tasks.append((kind, m, cpu_limit(len(m))))
         meta.append({"kind": kind, "base": name, "edits": edits})
+
+    def data_of(i):
+        if i < nfixed:
+            return fixed_tasks[i][1]
+        return apply_edits(bases[meta[i]["base"]][1], meta[i]["edits"])
+
     nproc = min(16, os.cpu_count() or 4)
     t0 = time.time()
     # batches: once three timeouts were seen the search has its failing inputs; the rest is skipped
-    res, BATCH = [], 200
-    for lo in range(0, len(tasks), BATCH):
-        res += run_pool(tasks[lo:lo + BATCH], nproc, wall_guard=3600)
+    res, BATCH = [], (200 if ck.quick else 2000)
+    kinds_l, limits, hashes = [], [], []
+    for lo in range(0, len(meta), BATCH):
+        batch = []
+        for i in range(lo, min(lo + BATCH, len(meta))):
+            d = data_of(i)
+            batch.append((meta[i]["kind"], d, cpu_limit(len(d))))
+            kinds_l.append(meta[i]["kind"]); limits.append(cpu_limit(len(d))); hashes.append(hash(d))
+        res += run_pool(batch, nproc, wall_guard=3600)
         if sum(1 for o, _c in res if o == "timeout") >= 3:
-            ck.notes.append(f"search stopped after {len(res)} of {len(tasks)} inputs: three parses exceeded the limit")
+            ck.notes.append(f"search stopped after {len(res)} of {len(meta)} inputs: three parses exceeded the limit")
             break
-    tasks, meta = tasks[:len(res)], meta[:len(res)]
+    meta = meta[:len(res)]
+    tasks = [(kinds_l[i], None, limits[i]) for i in range(len(res))]
     wall = time.time() - t0
     outcomes, slow = {}, []
     for i, (out, cpu) in enumerate(res):
@@ -810,7 +825,8 @@ def run(ck: Check):
     for i, (out, cpu) in enumerate(res):
         if out != "timeout" or nfail >= 3:
             continue
-        kind, data, limit = tasks[i]
+        kind, _none, limit = tasks[i]
+        data = data_of(i)
         out2, cpu2 = run_single(kind, data, 2 * limit)     # confirm alone, twice the limit
         if out2 != "timeout":
             ck.notes.append(f"slow but finished when re-run alone: {meta[i].get('base', meta[i].get('name'))} {cpu2:.1f}s cpu")
@@ -854,7 +870,7 @@ def run(ck: Check):
                 None, "a result or an error", f"no result after {cpu2:.0f} s of CPU time")
     passed_header = sum(v for k, v in outcomes.items() if not k.endswith("err:ValueError") or not k.startswith("dex"))
     ck.cover(evaluations=len(tasks),
-             distinct=[(t[0], hash(t[1])) for t in tasks],
+             distinct=[(kinds_l[i], hashes[i]) for i in range(len(tasks))],
              samples=[{"base": meta[i].get("base", meta[i].get("name")), "edits": meta[i].get("edits", [])[:3], "outcome": res[i][0],
                        "cpu_s": round(res[i][1], 3)} for i in (ncorpus, len(tasks) // 2, len(tasks) - 1)],
              dist=dict(outcomes, bases=len(bases), crafted=len(cr), corpus_cases=ncorpus, pathological_inputs=npatho,
